@@ -49,6 +49,8 @@ const (
 type Closure struct {
 	Fn       interface{} // *ssa.Function
 	Bindings []Val
+	Spec     SExpr    // functional specification ($k = k-th parameter), verified where the closure is created
+	SpecEnv  *SpecEnv // environment of the enclosing function at the creation point
 }
 
 type Script struct {
@@ -148,6 +150,12 @@ func (s *Script) define(prefix, sort, term string) string {
 		return term
 	}
 	n := s.fresh(prefix)
+	if strings.HasPrefix(term, "(ite ") && sort != "Bool" {
+		// a real constant rather than a macro, so that the name can occur in quantifier patterns
+		s.emit(fmt.Sprintf("(declare-const %s %s)", n, sort))
+		s.emit(fmt.Sprintf("(assert (= %s %s))", n, term))
+		return n
+	}
 	s.emit(fmt.Sprintf("(define-fun %s () %s %s)", n, sort, term))
 	return n
 }
